@@ -74,7 +74,7 @@ Definition kind_soap (k : kind) : bool := match k with KAuthz => false | _ => tr
 
 (* one row of the table as the translator records it from the code:
    (method, request class, msgtype of the class, service, msgtype handed to
-    correctly_signed_message, must/origdoc/only_valid_cert passed through,
+    correctly_signed_message, text and must passed through,
     root tags <msgtype>_from_string accepts, SOAP reader exists, root tags the SOAP reader accepts) *)
 Definition row := (str * str * str * str * str * bool * list str * bool * list str)%type.
 Definition documented_row (k : kind) : row :=
